@@ -57,6 +57,10 @@ func newC16World(r *core.RNG) *c16World {
 	for i := 0; i < 6; i++ {
 		d := &c16Dev{}
 		d.DevEUI, d.JoinEUI, d.NwkKey, d.AppKey = eui(r), eui(r), key16(r), key16(r)
+		if i < 2 {
+			// a device identity that re-appears in other worlds of this process with new root keys (re-provisioning)
+			d.DevEUI = [8]byte{0x70, 0xb3, 0xd5, 0x7e, 0xd0, 0, 0, byte(i)}
+		}
 		switch r.Intn(5) {
 		case 0:
 			d.JoinNonce = 0
